@@ -6,7 +6,9 @@ LEVEL = "proof"
 FUNCTIONS = ["LimitOrderBook.acq_price", "LimitOrderBook.liq_price", "Trade.__init__", "Broker.holdings_values",
              "Broker.net_liquidation_value", "Broker.context", "Weights._to_nr_contracts", "NrContracts._to_weights",
              "Rebalancing.make_trades", "Broker.transact", "Broker.rebalance"]
-REPLAYERS = [("Rebalancing.make_trades::raises::ValueError::sound", replayers.make_trades_raises)]
+REPLAYERS = [
+    ("Trade.__init__::", replayers.trade_init),
+("Rebalancing.make_trades::raises::ValueError::sound", replayers.make_trades_raises)]
 LEVEL_TEXT = ("Deductive, with NaN first-class in the value domain: holdings_values / net_liquidation_value raise ValueError iff some "
               "non-zero position lacks its liquidation-side quote (soundness and completeness of the raise condition on every path; "
               "flat positions never need a quote); every exceptional exit of Broker.rebalance (from accrued_interest, context, "
